@@ -50,6 +50,7 @@ fn later_op() -> impl Strategy<Value = Op> {
         3 => any::<u16>().prop_map(Op::CaseVariant),
         1 => any::<u16>().prop_map(Op::ResetSoft),
         3 => (any::<u16>(), any::<u16>()).prop_map(|(a, b)| Op::BlankEdgeName(a, b)),
+        3 => any::<u16>().prop_map(Op::OutDirSibling),
     ]
 }
 
